@@ -17,6 +17,7 @@ import (
 
 	"github.com/bokysan/socketace/v2/verifharness/bubble"
 	"github.com/bokysan/socketace/v2/verifharness/mc"
+	"github.com/bokysan/socketace/v2/verifharness/netsim"
 	"github.com/bokysan/socketace/v2/verifharness/world"
 )
 
@@ -226,6 +227,12 @@ func execute(t *testing.T, c Case, n int) (rr runResult) {
 			if cl != nil {
 				cl.Cut(false, false)
 			}
+		case "cut-timeout":
+			// the path dies the way the kernel reports ETIMEDOUT: reads and writes fail with a
+			// net.Error whose Timeout() is true, and keep failing
+			if cl != nil {
+				cl.CutWith(netsim.ErrTimeout, false)
+			}
 		case "garbage":
 			if cl != nil {
 				cl.Peer.Inject([]byte("\xde\xad\xbe\xef\x00\x01\x02\x03garbage!"))
@@ -307,7 +314,7 @@ func evalCase(t *testing.T, r *mc.Run, c Case, ns []int) {
 func cases(_ bool) []Case {
 	var out []Case
 	for _, carrier := range []string{"stream", "ws", "stdio", "dns"} {
-		endings := []string{"client-shutdown", "server-close", "cut-eof", "cut-reset", "garbage", "silence"}
+		endings := []string{"client-shutdown", "server-close", "cut-eof", "cut-reset", "cut-timeout", "garbage", "silence"}
 		if carrier == "dns" {
 			endings = []string{"client-shutdown", "silence"}
 		}
@@ -340,10 +347,11 @@ func TestCheck(t *testing.T) {
 	if r.Thorough() {
 		ns = []int{1, 2, 4, 8, 16, 32}
 	}
+	r.SpinFails = true // "a dead session is never serviced in a busy loop"
 	if r.Replay != nil {
 		var c Case
 		r.DecodeReplay(&c)
-		evalCase(t, r, c, ns)
+		r.Guard(0, 40*time.Second, "hang|"+c.Carrier+"|"+c.Ending, c.String(), c, func() { evalCase(t, r, c, ns) })
 		return
 	}
 	all := cases(r.Thorough())
@@ -355,7 +363,7 @@ func TestCheck(t *testing.T) {
 			r.Cap(fmt.Sprintf("time budget reached at case %d of %d", idx, len(all)))
 			break
 		}
-		r.Guard(idx, 120*time.Second, "hang|"+c.Carrier+"|"+c.Ending, c.String(), c, func() {
+		r.Guard(idx, 40*time.Second, "hang|"+c.Carrier+"|"+c.Ending, c.String(), c, func() {
 			evalCase(t, r, c, ns)
 		})
 		if idx%17 == 0 {
